@@ -785,7 +785,11 @@ def check_C17(ctx):
     vlib.require_mc_ok(r, "MC_ReplyLen")
     ctx.add_mc("MC_ReplyLen(size model: 0..500 values x families x 0..8 nodes x tid lengths)", r)
     ctx.cov["size_model"] = [x for x in r.out.splitlines() if "MAXFIT" in x or x.strip().startswith(("\"", "1", "5"))][:10]
-    parts, known = run_node_scenarios(ctx, server_scenarios(ctx), ["C17"], "server")
+    # plus two day-long histories (projection mode): a swarm of 100 peers announces, renews (in another order / another hash of the
+    # same peers), and is replaced a day later by 100 other peers -- the replies of the second day carry 100 peers and fit
+    sd = vlib.seed() % 1000
+    stale = [("stale-s%d" % k, ["--scenario", "stale", "--seed", str(sd + k)]) for k in ((0, 1) if ctx.quick else (0, 1, 2, 3))]
+    parts, known = run_node_scenarios(ctx, server_scenarios(ctx) + stale, ["C17"], "server")
     n, kinds = node_stats(ctx, parts)
     ctx.cov["distinct_nontrivial"] = kinds.get("Send", 0)
     ctx.cov["rule"] = ("every datagram sent by real nodes in the server scenarios (queries, replies, errors; 0..190 peers on one info-hash, "
